@@ -580,6 +580,7 @@ fn parse_start_tag<'input>(s: &mut Stream<'input>, events: &mut impl XmlEvents<'
     events.token(Token::ElementStart(prefix, local, start))?;
 
     let mut open = false;
+    let mut finished = false;
     while !s.at_end() {
         let has_space = s.starts_with_space();
         s.skip_spaces();
@@ -590,6 +591,7 @@ fn parse_start_tag<'input>(s: &mut Stream<'input>, events: &mut impl XmlEvents<'
                 s.consume_byte(b'>')?;
                 let range = s.range_from(start);
                 events.token(Token::ElementEnd(ElementEnd::Empty, range))?;
+                finished = true;
                 break;
             }
             b'>' => {
@@ -597,6 +599,7 @@ fn parse_start_tag<'input>(s: &mut Stream<'input>, events: &mut impl XmlEvents<'
                 let range = s.range_from(start);
                 events.token(Token::ElementEnd(ElementEnd::Open, range))?;
                 open = true;
+                finished = true;
                 break;
             }
             _ => {
@@ -625,6 +628,11 @@ fn parse_start_tag<'input>(s: &mut Stream<'input>, events: &mut impl XmlEvents<'
                 events.token(Token::Attribute(start..end, qname_len, eq_len, prefix, local, value))?;
             }
         }
+    }
+
+    // The stream (the document or an entity value) ended inside the tag.
+    if !finished {
+        return Err(Error::UnexpectedEndOfStream);
     }
 
     Ok(open)
